@@ -31,7 +31,7 @@ fn dictionary(f: Fmt) -> Vec<&'static str> {
     match f {
         Fmt::Turtle | Fmt::Trig | Fmt::Gtrig => d.extend(["<<", ">>", "{|", "|}", "[", "]", "(", ")", "@prefix", "@base", "PREFIX", "BASE", "GRAPH", "{", "}", ";", ",", "a", "true", "'''", "\"\"\"", "+1.", "-.5", "1E+", "?v", "$v", ":\\~", ":%41", "p:"]),
         Fmt::Gnq | Fmt::Nq | Fmt::Nt => d.extend(["<<", ">>", "?v", "$"]),
-        Fmt::Xml => d.extend(["<!--", "-->", "<![CDATA[", "]]>", "&amp;", "&#0;", "&#xD;", "&unk;", "xmlns:rdf=\"x]y\"", "rdf:about=\"", "rdf:nodeID=\"1 x\"", "xml:lang=\"!!\"", "rdf:parseType=\"Literal\"", "<rdf:li/>", "</", "/>", "<?pi?>", "<!DOCTYPE a [<!ENTITY e \"v\">]>", "rdf:ID=\"a b\"", "xml:base=\"::\""]),
+        Fmt::Xml => d.extend(["<!--", "-->", "<![CDATA[", "]]>", "&amp;", "&#0;", "&#xD;", "&unk;", "xmlns:rdf=\"x]y\"", "rdf:about=\"", "rdf:nodeID=\"1 x\"", "rdf:nodeID=\"b1.\"", "rdf:nodeID=\"a.\"", "xml:lang=\"!!\"", "rdf:parseType=\"Literal\"", "<rdf:li/>", "</", "/>", "<?pi?>", "<!DOCTYPE a [<!ENTITY e \"v\">]>", "rdf:ID=\"a b\"", "xml:base=\"::\""]),
         Fmt::JsonLd => d.extend(["{", "}", "[", "]", ":", ",", "null", "\"@id\"", "\"@type\"", "\"@list\"", "\"@set\"", "\"@graph\"", "\"@value\"", "\"@language\"", "\"@context\"", "\"@reverse\"", "\"@nest\"", "\"@vocab\"", "\"@base\"", "\"http://remote.example/ctx\"", "\"_:b\"", "\"!!\"", "1e999", "\\ud800"]),
     }
     d
